@@ -184,6 +184,16 @@ class Values(Sub):
                 out.fail(sig + 'WCA/nonzero-beyond-minimum', 'WCA != 0 beyond 2^(1/6) sigma')
             if np.any(u < -16 * EPS * abs(p['epsilon'])):
                 out.fail(sig + 'WCA/negative', 'WCA potential negative: min %r' % float(np.min(u)))
+        # r handed over as a strided view of a longer buffer: identical values, buffer untouched
+        buf = np.empty(2 * len(r))
+        buf[0::2] = r
+        buf[1::2] = -1.0
+        with np.errstate(all='ignore'):
+            uv = np.asarray(make_potential(name, p, sigma).calculate(buf[0::2]))
+        if uv.shape != u.shape or not np.array_equal(uv, u, equal_nan=True):
+            out.fail(sig + name + '/depends-on-memory-layout', 'calculate(r) gives different values for a strided view of r than for a contiguous array')
+        if not (np.array_equal(buf[0::2], r) and np.all(buf[1::2] == -1.0)):
+            out.fail(sig + name + '/modifies-r', 'calculate(r) wrote into the buffer behind a strided view of r')
         # elementwise: a sub-sample / permutation gives the same values at the same points
         g = np.random.Generator(np.random.PCG64(spec['sub_seed']))
         idx = g.permutation(len(r))[:max(1, len(r) // 2)]
